@@ -32,6 +32,7 @@ static char tracked[MAXFD];
 static pthread_mutex_t mu = PTHREAD_MUTEX_INITIALIZER;
 static int logfd = -1;
 static uint64_t seq = 0;
+static __thread int in_shim = 0;
 
 /* statistics since the last vio_reset */
 static uint64_t n_write = 0, n_fsync = 0, n_open = 0, n_mmap = 0, n_trunc = 0;
@@ -106,7 +107,9 @@ static void log_rec(uint32_t op, int fd, int64_t off, uint64_t len, int64_t ret,
     r.off = off;
     r.len = len;
     r.ret = ret;
+    in_shim = 1;
     r.size_after = (fd >= 0 && fstat(fd, &st) == 0) ? (uint64_t)st.st_size : 0;
+    in_shim = 0;
     real_write(logfd, &r, sizeof r);
     if (data && dlen) real_write(logfd, data, dlen);
 }
@@ -165,7 +168,7 @@ static int fault_decide(int cls) {
 
 /* ---- gates ------------------------------------------------------------- */
 static uint64_t gate_count[16];
-static const char *gate_names[] = {"after_open", "before_write", "after_write", "before_fsync", "after_fsync", "before_mmap", "after_mmap", "before_close", 0};
+static const char *gate_names[] = {"after_open", "before_write", "after_write", "before_fsync", "after_fsync", "before_mmap", "after_mmap", "before_close", "after_stat", 0};
 
 static void touch(const char *p) {
     int fd = real_open64(p, O_WRONLY | O_CREAT, 0644);
@@ -191,16 +194,23 @@ static void gate(int point) {
                 char *waitf = c1 + 1;
                 char *c2 = strchr(waitf, ':');
                 char *sigf = 0;
-                if (c2) { *c2 = 0; sigf = c2 + 1; }
+                long soft_ms = 0; /* optional 4th field: give up silently after that many ms */
+                if (c2) {
+                    *c2 = 0; sigf = c2 + 1;
+                    char *c3 = strchr(sigf, ':');
+                    if (c3) { *c3 = 0; soft_ms = atol(c3 + 1); }
+                }
                 if (strcmp(buf, want) == 0) {
                     if (sigf && *sigf) touch(sigf);
                     if (*waitf) {
-                        struct stat st;
                         int spins = 0;
-                        while (stat(waitf, &st) != 0) {
+                        /* access(2), not stat: the shim interposes the stat family itself */
+                        while (access(waitf, F_OK) != 0) {
                             struct timespec ts = {0, 200000};
                             nanosleep(&ts, 0);
-                            if (++spins > 100000) { /* 20 s watchdog: give up, leave a marker */
+                            ++spins;
+                            if (soft_ms > 0 && spins > soft_ms * 5) break; /* an ordering the code under test rules out */
+                            if (spins > 100000) { /* 20 s watchdog: give up, leave a marker */
                                 char m[1100]; snprintf(m, sizeof m, "%s.timeout", waitf); touch(m);
                                 break;
                             }
@@ -376,6 +386,24 @@ void *mmap64(void *addr, size_t len, int prot, int flags, int fd, off64_t off) {
         pthread_mutex_unlock(&mu);
         gate(6);
     }
+    return r;
+}
+
+/* File::metadata() -> statx(fd, "", AT_EMPTY_PATH, ...) (or fstat): a gate point after the caller has
+ * looked at the file's size */
+static int (*real_statx)(int, const char *, int, unsigned int, struct statx *);
+int statx(int dirfd, const char *restrict path, int flags, unsigned int mask, struct statx *restrict buf) {
+    if (!real_statx) real_statx = dlsym(RTLD_NEXT, "statx");
+    int r = real_statx ? real_statx(dirfd, path, flags, mask, buf) : -1;
+    if (is_tracked(dirfd) && path && !*path) gate(8);
+    return r;
+}
+
+static int (*real_fstat)(int, struct stat *);
+int fstat(int fd, struct stat *st) {
+    if (!real_fstat) real_fstat = dlsym(RTLD_NEXT, "fstat");
+    int r = real_fstat ? real_fstat(fd, st) : -1;
+    if (fd != logfd && is_tracked(fd) && !in_shim) gate(8);
     return r;
 }
 
